@@ -219,8 +219,11 @@ func (mv mapValue) PropertyValue(iv Value) Value {
 	}
 	var er reflect.Value
 	// a property name can only be a key of a map whose key type can hold it (string, interface{}, …)
-	if ir.Type().AssignableTo(mr.Type().Key()) {
+	if kt := mr.Type().Key(); ir.Type().AssignableTo(kt) {
 		er = mr.MapIndex(ir)
+	} else if kt.Kind() == reflect.String && ir.Kind() == reflect.String {
+		// a map keyed by a named string type (map[Title]T) is a string-keyed map
+		er = mr.MapIndex(ir.Convert(kt))
 	}
 	switch {
 	case er.IsValid():
@@ -237,12 +240,20 @@ func (sv stringValue) Contains(substr Value) bool {
 	if !ok {
 		s = fmt.Sprint(substr.Interface())
 	}
-	return strings.Contains(sv.value.(string), s)
+	return strings.Contains(sv.str(), s)
+}
+
+// str is the text of the wrapped value, which may be of a named string type (type Title string, json.Number).
+func (sv stringValue) str() string {
+	if s, ok := sv.value.(string); ok {
+		return s
+	}
+	return reflect.ValueOf(sv.value).String()
 }
 
 func (sv stringValue) PropertyValue(iv Value) Value {
 	if iv.Interface() == sizeKey {
-		return ValueOf(len(sv.value.(string)))
+		return ValueOf(len(sv.str()))
 	}
 	return nilValue
 }
